@@ -54,13 +54,15 @@ Definition run_drops (H : net) (vs : list (bflags * drops * iflags)) : tok :=
         mol              absent -> no label
     (`via` absent: ids synthesised from hash(), outside the model.)  In the record [sarc] an absent map is the empty map,
     an absent rule set the empty set, an absent legacy value 1 — the importer cannot tell the difference. *)
-Record sdrops := SDrops { sd_label : bool; sd_kind : bool; sd_mol : bool; sd_rules : bool; sd_maps : bool; sd_legacy : bool }.
+Record sdrops := SDrops { sd_label : bool; sd_kind : bool; sd_mol : bool; sd_rules : bool;
+                          sd_rmap : bool; sd_pmap : bool;        (* del stoich_r_map / stoich_p_map *)
+                          sd_leg_r : bool; sd_leg_p : bool }.    (* del stoich_r / stoich_p *)
 Definition sdrop_node (d : sdrops) (nd : snode) : snode :=
   SNode (if sd_label d then None else sn_label nd) (if sd_kind d then None else sn_kind nd) (if sd_mol d then None else sn_mol nd).
 Definition sdrop_arc (d : sdrops) (a : sarc) : sarc :=
   SArc (sa_via a) (if sd_rules d then ∅ else sa_rules a)
-       (if sd_legacy d then 1%Z else sa_r a) (if sd_legacy d then 1%Z else sa_p a)
-       (if sd_maps d then ∅ else sa_rmap a) (if sd_maps d then ∅ else sa_pmap a).
+       (if sd_leg_r d then 1%Z else sa_r a) (if sd_leg_p d then 1%Z else sa_p a)
+       (if sd_rmap d then ∅ else sa_rmap a) (if sd_pmap d then ∅ else sa_pmap a).
 Definition sdrop_attrs (d : sdrops) (G : sgraph) : sgraph := SGraph (sdrop_node d <$> g_nodes G) (sdrop_arc d <$> g_arcs G).
 
 (** the rule of a rebuilt reaction is an arbitrary element of its merged rule set: shown when that set has at most one
